@@ -661,5 +661,53 @@ impl VM {
 
 }
 
+
+/// O02.needs  the number of values each simple arm requires on the operand stack (its `stack@.len() >= k` precondition
+/// above) is the tabled `op_needs` that the code generator's static typing checks at every emission (O02.pop);
+/// Array / CallBuiltin / Call require their operand count, which the emitting arm checks itself
+pub proof fn lemma_arm_needs_are_tabled()
+{
+    assert(op_needs(OpCode::Add) == 2);
+    assert(op_needs(OpCode::Subtract) == 2);
+    assert(op_needs(OpCode::Divide) == 2);
+    assert(op_needs(OpCode::Multiply) == 2);
+    assert(op_needs(OpCode::Gt) == 2);
+    assert(op_needs(OpCode::Gte) == 2);
+    assert(op_needs(OpCode::Lt) == 2);
+    assert(op_needs(OpCode::Lte) == 2);
+    assert(op_needs(OpCode::Eq) == 2);
+    assert(op_needs(OpCode::Neq) == 2);
+    assert(op_needs(OpCode::Modulo) == 2);
+    assert(op_needs(OpCode::And) == 2);
+    assert(op_needs(OpCode::Or) == 2);
+    assert(op_needs(OpCode::GtLocalConst) == 0);
+    assert(op_needs(OpCode::GteLocalConst) == 0);
+    assert(op_needs(OpCode::LtLocalConst) == 0);
+    assert(op_needs(OpCode::LteLocalConst) == 0);
+    assert(op_needs(OpCode::EqLocalConst) == 0);
+    assert(op_needs(OpCode::NeqLocalConst) == 0);
+    assert(op_needs(OpCode::AddLocalConst) == 0);
+    assert(op_needs(OpCode::SubtractLocalConst) == 0);
+    assert(op_needs(OpCode::MultiplyLocalConst) == 0);
+    assert(op_needs(OpCode::DivideLocalConst) == 0);
+    assert(op_needs(OpCode::ModuloLocalConst) == 0);
+    assert(op_needs(OpCode::Const) == 0);
+    assert(op_needs(OpCode::SetGlobal) == 1);
+    assert(op_needs(OpCode::GetGlobal) == 0);
+    assert(op_needs(OpCode::SetLocal) == 1);
+    assert(op_needs(OpCode::GetLocal) == 0);
+    assert(op_needs(OpCode::Jump) == 0);
+    assert(op_needs(OpCode::JumpIfFalse) == 1);
+    assert(op_needs(OpCode::Pop) == 1);
+    assert(op_needs(OpCode::Null) == 0);
+    assert(op_needs(OpCode::True) == 0);
+    assert(op_needs(OpCode::False) == 0);
+    assert(op_needs(OpCode::Not) == 1);
+    assert(op_needs(OpCode::Negate) == 1);
+    assert(op_needs(OpCode::IndexGet) == 2);
+    assert(op_needs(OpCode::IndexSet) == 3);
+    assert(op_needs(OpCode::Halt) == 0);
+}
+
 } // verus!
 fn main() {}
